@@ -17,12 +17,13 @@ import (
 // documented contract: WriteHeader with a code outside 100..999 panics, the
 // first Write implies 200, later WriteHeader calls are ignored.
 type verifRecorder struct {
-	header      http.Header
-	wroteHeader bool
-	status      int
-	sentHeader  http.Header
-	body        []byte
-	flushes     int
+	header        http.Header
+	wroteHeader   bool
+	status        int
+	sentHeader    http.Header
+	body          []byte
+	flushes       int
+	informational int
 }
 
 func (r *verifRecorder) Header() http.Header { return r.header }
@@ -31,6 +32,10 @@ func (r *verifRecorder) WriteHeader(code int) {
 		panic("invalid WriteHeader code")
 	}
 	if r.wroteHeader {
+		return
+	}
+	if code >= 100 && code <= 199 && code != 101 {
+		r.informational++ // 1xx responses are sent at once and do not end the header phase
 		return
 	}
 	r.wroteHeader = true
@@ -90,7 +95,7 @@ func verifC14(maxSteps int) {
 		st := verifStep{kind: verifChoose("step", 4)}
 		switch st.kind {
 		case 0:
-			st.status = []int{200, 404, 204}[verifChoose("code", 3)]
+			st.status = []int{200, 404, 204, 103}[verifChoose("code", 4)]
 		case 1:
 			st.data = []byte(verifNondetStringN("data", 1))
 		}
@@ -141,7 +146,8 @@ func verifC14(maxSteps int) {
 	for _, st := range steps {
 		switch st.kind {
 		case 0:
-			if !hWrote {
+			// an informational status (103 Early Hints) does not end the header phase
+			if !hWrote && !(st.status >= 100 && st.status <= 199) {
 				hWrote, hStatus = true, st.status
 			}
 		case 1:
@@ -193,7 +199,7 @@ func verifC14(maxSteps int) {
 	_ = errors.New
 }
 
-//verif:harness id=C14 tier=quick witness=end bounds="route found or not x request valid or not x strict or not x every handler call sequence of length 0..3 over {WriteHeader(200|404|204), Write(1 symbolic byte), Header().Set, Flush}; client writer implements net/http's contract"
+//verif:harness id=C14 tier=quick witness=end bounds="route found or not x request valid or not x strict or not x every handler call sequence of length 0..3 over {WriteHeader(200|404|204|103), Write(1 symbolic byte), Header().Set, Flush}; client writer implements net/http's contract"
 func verifH_C14_middleware() { verifC14(3) }
 
 //verif:harness id=C14 tier=thorough witness=end bounds="as quick with handler call sequences of length 0..5"
